@@ -79,7 +79,8 @@ class RunResult(object):
 
 
 def execute(prog, faults, extractor=None, fail_save=False, rate=None, enabled=True, kind='memory', ignore_forced=False,
-            skipped=False, copy=None, rng_seed=5, scripted_draws=None, recorder=None, spy=None, box=None, with_twin=True, built=None):
+            skipped=False, copy=None, rng_seed=5, scripted_draws=None, recorder=None, spy=None, box=None, with_twin=True, built=None,
+            cls_name=None):
     """Runs the decorated program under ``faults`` (and its twin). The caller closes res.box_cm if it is not None."""
     from playback.tape_recorder import TapeRecorder
     res = RunResult()
@@ -114,10 +115,10 @@ def execute(prog, faults, extractor=None, fail_save=False, rate=None, enabled=Tr
     res.draws_start = len(getattr(res.recorder._random, 'draws', []))
     if built is not None:
         # the same class is invoked again (its recording parameters were registered by the first run)
-        res.live = built.rearm(faults=faults)
+        res.live = built.rearm(faults=faults, extractor_behaviour=extractor)
     else:
         res.live = Built(p, res.recorder, World(prog['seed_world'], raise_rate=prog['opts']['raise_rate']), faults=faults,
-                         extractor_behaviour=extractor)
+                         extractor_behaviour=extractor, cls_name=cls_name)
     import time as _t
     res.utc_before = _now_utc()
     res.t_before = _t.time()
